@@ -35,6 +35,25 @@ pub enum M {
     GmU16,
     // explicit-parameter unmock form
     E0,
+    // lending (C13)
+    LendA,
+    LendB,
+    LendMut,
+    Lent,
+    LendClone,
+    LendVia,
+    // owned tracked values (C12)
+    OwnSingle,
+    OwnMulti,
+    OwnOpt,
+    OwnRes,
+    OwnTup,
+    OwnTup1,
+    OwnVec,
+    // a trait with a receiver-less provided fn before methods with unmock functions
+    S0,
+    S1,
+    S2,
 }
 
 #[derive(Clone, Copy, Debug, PartialEq, Eq)]
@@ -84,6 +103,22 @@ pub const ALL_M: &[M] = &[
     M::GmU8,
     M::GmU16,
     M::E0,
+    M::LendA,
+    M::LendB,
+    M::LendMut,
+    M::Lent,
+    M::LendClone,
+    M::LendVia,
+    M::OwnSingle,
+    M::OwnMulti,
+    M::OwnOpt,
+    M::OwnRes,
+    M::OwnTup,
+    M::OwnTup1,
+    M::OwnVec,
+    M::S0,
+    M::S1,
+    M::S2,
 ];
 
 impl M {
@@ -113,6 +148,22 @@ impl M {
             M::GmU8 => ("GenM", "gm", false, false, false, Recv::Ref, false),
             M::GmU16 => ("GenM", "gm", false, false, false, Recv::Ref, false),
             M::E0 => ("Expl", "e0", true, false, true, Recv::Ref, false),
+            M::LendA => ("Lend", "lend_a", false, false, false, Recv::Ref, false),
+            M::LendB => ("Lend", "lend_b", false, false, false, Recv::Ref, false),
+            M::LendMut => ("Lend", "lend_mut", false, false, false, Recv::Mut, false),
+            M::Lent => ("Lend", "lent", false, false, false, Recv::Ref, false),
+            M::LendClone => ("Lend", "lend_clone", false, false, false, Recv::Ref, false),
+            M::LendVia => ("Lend", "lend_via", false, true, false, Recv::Ref, false),
+            M::OwnSingle => ("Own", "own_single", false, false, false, Recv::Ref, false),
+            M::OwnMulti => ("Own", "own_multi", false, false, false, Recv::Ref, false),
+            M::OwnOpt => ("Own", "own_opt", false, false, false, Recv::Ref, false),
+            M::OwnRes => ("Own", "own_res", false, false, false, Recv::Ref, false),
+            M::OwnTup => ("Own", "own_tup", false, false, false, Recv::Ref, false),
+            M::OwnTup1 => ("Own", "own_tup1", false, false, false, Recv::Ref, false),
+            M::OwnVec => ("Own", "own_vec", false, false, false, Recv::Ref, false),
+            M::S0 => ("Skip", "s0", false, false, true, Recv::Ref, false),
+            M::S1 => ("Skip", "s1", false, false, false, Recv::Ref, false),
+            M::S2 => ("Skip", "s2", false, false, true, Recv::Ref, false),
         };
         MInfo {
             m: self,
@@ -242,6 +293,37 @@ pub struct Config {
     pub real_progs: Vec<(M, Prog)>,
     /// programs of default bodies, per method (only required methods of the same trait)
     pub default_progs: Vec<(M, Prog)>,
+    /// fixed-form clauses of the lending / owned-value worlds, appended after `clauses`
+    #[serde(default)]
+    pub specials: Vec<Special>,
+}
+
+/// Clauses for methods whose responses are instrumented values (C12, C13, C09).
+#[derive(Serialize, Deserialize, Clone, Debug, PartialEq, Eq, Hash)]
+pub enum Special {
+    /// each_call(_).answers(|u| u.make_ref(ValA))
+    LendA,
+    LendB,
+    /// each_call(_).answers(|u| u.make_mut(ValA))
+    LendMut,
+    /// each_call(_).returns(Tracked{id}) stored in the pattern and lent on every call
+    Lent { id: u32 },
+    /// each_call(_).answers(|u| u.make_ref(u.clone()))
+    LendClone,
+    /// some_call / next_call (ordered) .returns(Tracked{id}) [.once()] [.then().answers(fresh value)]
+    OwnSingle { ordered: bool, once: bool, then_answers: bool, id: u32 },
+    /// returns(TrackedC{id}) quantified for repeated use
+    OwnMulti { quant: Quant, each_call: bool, id: u32 },
+    /// -> Option<Tracked>, single use
+    OwnOpt { id: u32 },
+    /// -> Result<&u32, Tracked>: Err leaf owned, single use
+    OwnRes { id: u32 },
+    /// -> (&u32, TrackedC) for repeated use
+    OwnTup { quant: Quant, id: u32 },
+    /// -> (&u32, Tracked), single use
+    OwnTup1 { id: u32 },
+    /// -> Vec<Result<&u32, Tracked>> with one owned leaf, single use
+    OwnVec { id: u32 },
 }
 
 #[derive(Serialize, Deserialize, Clone, Copy, Debug, PartialEq, Eq, Hash)]
@@ -300,15 +382,13 @@ pub enum Op {
     UserPanic {
         catch: bool,
     },
-    /// lending world: take a reference from the mock and keep it on this thread
-    Lend {
+    /// lending world: borrow the instance for a while, take references from it, keep re-reading
+    /// all of them after every further step
+    LendSession {
         slot: u8,
-        kind: LendKind,
-        val: u32,
-    },
-    /// lending world: release all references this thread holds into `slot` (ends the borrow)
-    Release {
-        slot: u8,
+        /// true: the thread has the instance exclusively (`&mut`), which allows `make_mut`
+        exclusive: bool,
+        steps: Vec<LendStep>,
     },
     /// single-use / multi-use tracked value request
     Own {
@@ -323,17 +403,29 @@ pub enum Op {
 }
 
 #[derive(Serialize, Deserialize, Clone, Copy, Debug, PartialEq, Eq, Hash)]
+pub enum LendStep {
+    /// take `n` references of this kind; the values get ids val, val+1, ...
+    Take { kind: LendKind, val: u32, n: u32 },
+    /// re-read everything held (also done implicitly after every Take)
+    Check,
+    /// exclusive sessions only: ends all shared borrows, then `make_mut`
+    MakeMut { val: u32 },
+    /// let other threads run
+    Yield,
+}
+
+#[derive(Serialize, Deserialize, Clone, Copy, Debug, PartialEq, Eq, Hash)]
 pub enum LendKind {
     /// answer function calling make_ref with a ValA
     MakeRefA,
     /// answer function calling make_ref with a ValB (second type)
     MakeRefB,
-    /// answer function calling make_mut
-    MakeMut,
     /// borrowed `returns()` value stored in the pattern
     Lent,
     /// make_ref reached through the default-impl delegation helper
     ViaHelper,
+    /// make_ref(self.clone()): a clone of the mock lent by the mock
+    CloneOfSelf,
 }
 
 #[derive(Serialize, Deserialize, Clone, Copy, Debug, PartialEq, Eq, Hash)]
